@@ -62,11 +62,13 @@ def cuts(a):
     return out
 
 
-def _adj(n, triples, fmt='csr'):
+def _adj_base(n, triples, fmt='csr', dtype='float64'):
     r = np.array([e[0] for e in triples], dtype=int)
     c = np.array([e[1] for e in triples], dtype=int)
     w = np.array([e[2] for e in triples], dtype=float)
     m = sparse.csr_matrix((w, (r, c)), shape=(n, n))
+    if dtype != 'float64':
+        m = m.astype(dtype)
     return m
 
 
@@ -75,6 +77,8 @@ def metrics(a):
     n = a['n']
     D = _dend(a['D'])
     out = {}
+    dt = a.get('dtype', 'float64')
+    _adj = lambda n_, triples: _adj_base(n_, triples, dtype=dt)
     for weights in ('uniform', 'degree'):
         out['cost_' + weights] = _one(lambda: float(dasgupta_cost(_adj(n, a['edges']), D, weights=weights)))
         out['ncost_' + weights] = _one(lambda: float(dasgupta_cost(_adj(n, a['edges']), D, weights=weights, normalized=True)))
